@@ -325,6 +325,8 @@ VARIANTS += [
     V("rev-F41", ["C05"], H, "        integrator = np.array(integrator, dtype=numbtype)\n", "        integrator = np.array(integrator)\n", "DTYPE-AGREE", "func2func", "integration weights without the accumulator's dtype"),
     V("rev-F42", ["C17", "C08"], H, "                mult = vector.mult(knot) + raised\n", "                mult = vector.mult(knot)\n", "UNION-DEGREE", "ImmutableKnotVector.__or__", "union multiplicities not raised by the degree difference"),
     V("twin-union-raise-inline", ["C17", "C08"], H, "                mult = vector.mult(knot) + raised\n", "                mult = vector.mult(knot) + (degree - vector.degree)\n", None, None, "degree difference added inline", twin=True),
+    V("rev-F43", ["C08"], C, "            ctrlpoints = ctrlpoints + np.array(matrb) @ other.ctrlpoints\n", "            ctrlpoints += np.array(matrb) @ other.ctrlpoints\n", "INPLACE-MIX", "__add__", "second contribution added in place"),
+    V("twin-add-one-expression", ["C08"], C, "            ctrlpoints = np.array(matra) @ self.ctrlpoints\n            ctrlpoints = ctrlpoints + np.array(matrb) @ other.ctrlpoints\n", "            ctrlpoints = np.array(matra) @ self.ctrlpoints + np.array(matrb) @ other.ctrlpoints\n", None, None, "sum written as one expression", twin=True),
     V("insert-divide-by-umax", ["C04"], H, "        one = knotvector[-1] - knotvector[0]\n", "        one = knotvector[-1]\n", "D", "one_knot_insert_once", "unit made from the last knot alone (0 for an interval ending at 0)", near=908),
     V("increase-in-place-kv", ["C06"], C, "        nodes = self.knotvector.knots\n        newnodes = times * nodes\n        newvector = self.knotvector + newnodes\n        oldvector = tuple(self.knotvector)\n        matrix = heavy.Operations.degree_increase(oldvector, times)\n", "        oldvector = tuple(self.knotvector)\n        matrix = heavy.Operations.degree_increase(oldvector, times)\n        newvector = KnotVector(self.knotvector)\n        newvector.degree += times\n", "SHARED-KV", "degree_increase", "the stored KnotVector object is elevated in place"),
 ]
